@@ -244,7 +244,9 @@ func (r Relation) Join(r2 Relation, keys, leftOutput, rightOutput NamesSlice) Se
 	if rows.IsLiteralTrue() {
 		return True
 	}
-	attrs := append(leftOutput, rightOutput...)
+	// leftOutput may share its backing array (and spare capacity) with the
+	// names of r: never append to it in place.
+	attrs := append(append(make(NamesSlice, 0, count), leftOutput...), rightOutput...)
 	if len(attrs) == 2 {
 		at, val := 0, 1
 		if attrs[val] == "@" {
